@@ -68,7 +68,7 @@ class GeneratedDoesNotCompile(vt.HarnessError):
 
 
 def build_with_generated(check_id, exe_name, driver, x_out=None, x_ns=None, b_out=None, b_ns=None, extra=(), extra_sources=(),
-                         sanitize=False, opt="-O2"):
+                         sanitize=False, opt="-O2", repo=None):
     """Build a driver (sweep.cpp / dumpdb.cpp) against generated databases (either may be None)."""
     d = vt.build_dir(check_id)
     flags = list(extra)
@@ -86,7 +86,7 @@ def build_with_generated(check_id, exe_name, driver, x_out=None, x_ns=None, b_ou
     else:
         flags += ["-DVDB_NO_B=1"]
     try:
-        return vt.build(check_id, exe_name, [driver], extra=flags, extra_sources=srcs, sanitize=sanitize, opt=opt)
+        return vt.build(check_id, exe_name, [driver], extra=flags, extra_sources=srcs, sanitize=sanitize, opt=opt, repo=repo)
     except vt.HarnessError as e:
         msg = str(e)
         for o in (x_out, b_out):
